@@ -2,6 +2,15 @@
 import json, os
 V = os.path.dirname(os.path.dirname(os.path.abspath(__file__)))
 CLAIMED = {
+ "C20": dict(
+   text="Proof (model of the code after three fix commits): the moment helpers are the Riemann integrals of x^-a and x*x^-a for EVERY exponent (logarithmic cases exactly at "
+        "1 and 2), the continuity constants make the density continuous at every interior limit for any number of pieces, constants and normalisation are positive, the "
+        "scaled piece integrals sum to one, the density is non-negative, integral() inside a piece returns the two moments of that same density, and the single-piece "
+        "sampler maps [0,1] into [xmin,xmax] for every slope incl. 1. Source expressions re-extracted (T2); float instance vs Kroupa on generated pdfs incl. exponents "
+        "exactly 1 and 2; quad oracle.",
+   design="8/C20", technique="Coq/Coquelicot proofs (reusing the verified power-law integral) + regenerated formula tie + float correspondence + quad oracle",
+   note="Trusted: Coq kernel; Reals/Coquelicot axioms (evidence); FloatFun; harness; numpy.random is not modelled (the sampler is checked on recorded variates)."),
+
  "C08": dict(
    text="Proof: the closed form Mrem removes exactly what reaches the target ((Mb-x) = f (Mt-x)); for every bin list, non-BH mass Mo>0 and target 0<=f<1 below the "
         "fraction formed, the loop ends with BH mass = f * total mass, heaviest first with the cut structure and mean-mass preservation of the standard model, and "
